@@ -452,7 +452,7 @@ static void do_crc(const char *hex, char place) {
 static void run_case(char **tok, int nt) {
 	const char *op = tok[0]; char pl = tok[1][0];
 	want_reinvoke = (nt > 2 && !strcmp(tok[nt - 1], "R")); if (want_reinvoke) nt--;
-	watchdog_ms(2000);
+	watchdog_ms(150); /* 150 ms of CPU time: every function under test needs microseconds */
 #define ARG(i) ((i) < nt ? tok[i] : "-")
 #define NUM(i) ((size_t)strtoull(ARG(i), NULL, 10))
 	if (!strcmp(op, "b64enc")) do_sized(op, base64_encode, ARG(2), NUM(3), pl);
